@@ -128,6 +128,12 @@ pub enum Step {
     Peer(usize, Tok),
     /// application publishes publishes()[k] (after the subscriptions sent so far were processed)
     Publish(usize),
+    /// subscriber j comes back on a fresh connection (after the subscriptions sent so far were
+    /// processed). With `idents == 2` it announces the same identity again while its old
+    /// connection is still open and idle (false) or has just been closed without the socket
+    /// having looked (true); otherwise the old connection is closed and an anonymous one
+    /// joins. Subscriptions are counted per connection: the fresh one starts with none.
+    Rejoin(usize, bool),
 }
 
 #[derive(Debug, Clone, Serialize, Deserialize, PartialEq, Eq, Hash)]
@@ -164,6 +170,9 @@ pub fn filter_outcome(c: &FilterCase) -> Outcome {
     // non-trivial: duplicate, overlap (a & ab), unsubscribe, or topic length >= first frame
     if c.idents == 1 && c.subscribers >= 2 {
         o.class("several-subscribers-announce-empty-identity");
+    }
+    if c.idents == 2 && c.steps.iter().any(|s| matches!(s, Step::Rejoin(..))) {
+        o.class("subscriber-comes-back-under-its-identity");
     }
     let toks: Vec<&Tok> = c.steps.iter().filter_map(|s| if let Step::Peer(_, t) = s { Some(t) } else { None }).collect();
     let has_unsub = toks.iter().any(|t| matches!(t, Tok::Unsub(_)));
@@ -227,8 +236,48 @@ pub fn filter_outcome(c: &FilterCase) -> Outcome {
             let mut sent_subs: Vec<Frames> = vec![]; // in global send order (for XPUB recv)
             let mut sent_subs_by: Vec<Vec<Frames>> = vec![vec![]; c.subscribers];
             let mut xpub_got: Vec<Frames> = vec![];
+            let mut old_links: Vec<Link> = vec![];
             for st in &c.steps {
                 match st {
+                    Step::Rejoin(j, close_old) => {
+                        let j = *j % c.subscribers;
+                        if let Err(e) = process_subscriptions(&mut sim, s, c.xpub, &links, &mut xpub_got).await {
+                            fail!(f, format!("C11/{}/processing", who), "{}", e);
+                            return f;
+                        }
+                        // what the old connection received is settled here
+                        match links[j].lib_messages() {
+                            Ok(m) if m == expect[j] => {}
+                            Ok(m) => {
+                                fail!(f, format!("C11/{}/wrong-messages-delivered", who), "subscriber {} before it came back: received {} messages, the prefix model expects {}", j, m.len(), expect[j].len());
+                                return f;
+                            }
+                            Err(e) => {
+                                fail!(f, format!("C11/{}/wire-malformed", who), "subscriber {}: {}", j, e);
+                                return f;
+                            }
+                        }
+                        let ident: Option<Vec<u8>> = match c.idents {
+                            2 => Some(vec![b'a' + j as u8; if j % 2 == 0 { 1 } else { 255 }]),
+                            1 => Some(vec![]),
+                            _ => None,
+                        };
+                        if *close_old || c.idents != 2 {
+                            links[j].to_lib.end_after_all(crate::pipe::ReadEnd::Eof);
+                        }
+                        match simx::attach_raw(&mut sim, s, ident.as_deref()).await {
+                            Ok((l, _)) => {
+                                let old = std::mem::replace(&mut links[j], l);
+                                old_links.push(old);
+                            }
+                            Err(e) => {
+                                fail!(f, format!("C11/{}/returning-subscriber-not-admitted", who), "{}", e);
+                                return f;
+                            }
+                        }
+                        models[j] = Model::default();
+                        expect[j] = vec![];
+                    }
                     Step::Peer(j, t) => {
                         let j = *j % c.subscribers;
                         let w = t.wire();
@@ -341,6 +390,32 @@ pub fn filter_outcome(c: &FilterCase) -> Outcome {
     o
 }
 
+/// a subscriber subscribes, sees publishes, comes back on a fresh connection, subscribes to
+/// something else (or nothing): every (topic, topic-or-none) pair x identity mode x old
+/// connection open / closed, with a bystander that keeps its own subscription throughout
+fn rejoin_histories() -> Vec<FilterCase> {
+    let mut v = vec![];
+    for xpub in [false, true] {
+        for idents in 0..3u8 {
+            for close_old in [false, true] {
+                for t1 in 0..4u8 {
+                    for t2 in 0..5u8 {
+                        let mut steps = vec![Step::Peer(0, Tok::Sub(t1)), Step::Peer(1, Tok::Sub(3))];
+                        steps.extend((0..7).map(Step::Publish));
+                        steps.push(Step::Rejoin(0, close_old));
+                        if t2 < 4 {
+                            steps.push(Step::Peer(0, Tok::Sub(t2)));
+                        }
+                        steps.extend((0..7).map(Step::Publish));
+                        v.push(FilterCase { xpub, subscribers: 2, steps, idents });
+                    }
+                }
+            }
+        }
+    }
+    v
+}
+
 /// every history of length <= max_len for one subscriber, followed by all publishes
 fn exhaustive_histories(xpub: bool, max_len: usize) -> Vec<FilterCase> {
     let mut v = vec![];
@@ -374,6 +449,8 @@ fn gen_filter(s: &mut Src<'_>) -> FilterCase {
         .map(|_| {
             if s.chance(1, 3) {
                 Step::Publish(s.below(np))
+            } else if s.chance(1, 12) {
+                Step::Rejoin(s.below(subscribers), s.bool())
             } else {
                 // mostly the small alphabet; one token in four uses a long / binary topic
                 let tok = if s.chance(1, 4) {
@@ -411,6 +488,10 @@ pub fn run(ctx: &Ctx) -> (Report, PropertyMeta) {
         ));
         report.merge(r);
     }
+    let cases = rejoin_histories();
+    let r = run_cases(ctx, "filter", &cases, filter_outcome);
+    report.exhaustive_parts.push(format!("a subscriber that comes back on a fresh connection (PUB / XPUB x anonymous / empty / announced identity x old connection open / closed x 4 topics before x 4 topics or none after), next to a bystander: {} histories", cases.len()));
+    report.merge(r);
     let n = t.pick(30_000, 600_000);
     let r = run_random(ctx, "filter", n, 60..=200, gen_filter, filter_outcome);
     report.sections.push(json!({"part": "random histories of length <= 30 for 1..4 subscribers with interleaved publishes (PUB and XPUB)", "cases": n}));
@@ -420,6 +501,7 @@ pub fn run(ctx: &Ctx) -> (Report, PropertyMeta) {
         crate::fuzzing::campaign(ctx, &mut report, "sim", 180);
     }
     let total = report.evaluations;
+    health_abs(&mut report, "subscriber-comes-back-under-its-identity", 300);
     health(&mut report, "duplicate-subscription", total, 100);
     health(&mut report, "overlapping-prefixes", total, 100);
     health(&mut report, "unsubscribe", total, 300);
